@@ -308,13 +308,29 @@ def coq_eval_cases(ctx, header, case_type, cases, mismatch_fn, chunk=250, timeou
         idx = [int(x) for x in re.findall(r'\d+', body)] if body else []
         return start, n, idx, None
 
-    bad, errors = [], []
+    bad, errors, retry = [], [], []
     with ThreadPoolExecutor(max_workers=NCPU) as ex:
-        for start, n, idx, err in ex.map(run, jobs):
+        for job, (start, n, idx, err) in zip(jobs, ex.map(run, jobs)):
             if err is not None:
-                errors.append({'chunk_start': start, 'chunk_len': n, 'error': err})
+                # compiled libraries that changed under us (another check rebuilding shared .vo
+                # files, e.g. with another VERIF_REPO): rebuild under the lock and evaluate once more
+                if any(k in err for k in ('inconsistent assumptions', 'bad version number', 'is corrupted',
+                                          'Cannot find a physical path', 'Unable to locate library')):
+                    retry.append(job)
+                else:
+                    errors.append({'chunk_start': start, 'chunk_len': n, 'error': err})
             else:
                 bad.extend(start + i for i in idx)
+    if retry:
+        targets = [t for t in ('Properties/%s.vo' % ctx.pid, 'Check/%s.vo' % ctx.pid)
+                   if os.path.exists(os.path.join(COQ, t[:-1]))]
+        build(ctx, target=targets or None)
+        with ThreadPoolExecutor(max_workers=NCPU) as ex:
+            for start, n, idx, err in ex.map(run, retry):
+                if err is not None:
+                    errors.append({'chunk_start': start, 'chunk_len': n, 'error': err})
+                else:
+                    bad.extend(start + i for i in idx)
     return sorted(bad), errors
 
 
